@@ -172,8 +172,10 @@ def matches(rex, s):
 
 
 def unmatched(rexes, strings):
+    """matched IN FULL: '$' also matches just before a final line feed, so re.match('^abc$', 'abc\\n') succeeds
+    without matching the whole string - fullmatch is what the property asks for"""
     cps = [re.compile(r, RE_FLAGS) for r in rexes]
-    return [s for s in strings if not any(re.match(cp, s) for cp in cps)]
+    return [s for s in strings if not any(re.fullmatch(cp, s) for cp in cps)]
 
 
 # classes of the recorded C03 findings (DESIGN 7 C03)
